@@ -804,6 +804,10 @@ func (b *Builder) planReplace() stepPlan {
 	// add voter + remove voter OR add learner + remove learner.
 	for _, i := range b.toAdd.IDs() {
 		add := b.toAdd[i]
+		if b.currentPeers[i] != nil {
+			// The store still holds the old peer (voter -> learner without demote), remove it first.
+			continue
+		}
 		for _, j := range b.toRemove.IDs() {
 			remove := b.toRemove[j]
 			if core.IsLearner(remove) == core.IsLearner(add) {
@@ -815,7 +819,8 @@ func (b *Builder) planReplace() stepPlan {
 	for _, i := range b.toPromote.IDs() {
 		promote := b.toPromote[i]
 		for _, j := range b.toAdd.IDs() {
-			if add := b.toAdd[j]; core.IsLearner(add) {
+			// Skip the store that still holds the old peer, it should be removed first.
+			if add := b.toAdd[j]; core.IsLearner(add) && b.currentPeers[j] == nil {
 				for _, k := range b.toRemove.IDs() {
 					if remove := b.toRemove[k]; !core.IsLearner(remove) && j != k {
 						best = b.planReplaceLeaders(best, stepPlan{promote: promote, add: add, remove: remove})
@@ -914,6 +919,10 @@ func (b *Builder) planAddPeer() stepPlan {
 	var best stepPlan
 	for _, i := range b.toAdd.IDs() {
 		a := b.toAdd[i]
+		if b.currentPeers[i] != nil {
+			// The store still holds the old peer, it should be removed first.
+			continue
+		}
 		for _, leader := range b.currentPeers.IDs() {
 			if b.allowLeader(b.currentPeers[leader], false) {
 				best = b.comparePlan(best, stepPlan{add: a, leaderBeforeAdd: leader})
